@@ -26,6 +26,17 @@ def setup(E):
     return sc, kfn, init, xs, n
 
 
+def the_loop(E, k, what):
+    """the k-th lax.scan the real code ran on this path (a refuted obligation, not a checker crash, when there is none)"""
+    scans = getattr(E.I, "scans", [])
+    E.require(f"C12.{what}.runs_the_kernel_loop_over_all_iterations", len(scans) > k)
+    return scans[k]
+
+
+def n_scans(E):
+    return len(getattr(E.I, "scans", []))
+
+
 def x_at(E, xs, i):
     return UVal(E.ctx.fn("axis0_index", U, E.z3.IntSort(), U)(xs.t, i), "array")
 
@@ -50,7 +61,7 @@ def t_simulate(E):
     sc, kfn, init, xs, n = setup(E)
     k = key(E)
     tr = E.method(sc, "simulate", k, (init, xs))
-    loop = E.I.scans[0]
+    loop = the_loop(E, 0, "Scan.simulate")
     E.cover("scan.simulate.reached")
     # invariant: the loop counter equals the iteration number
     loop.prove_invariant(E, "C12.Scan.simulate.counter_is_iteration_number", lambda i, c: zint(c[1]) == i)
@@ -79,9 +90,9 @@ def t_simulate(E):
     E.prove("C12.Scan.simulate.args_and_length", E.And(E.eq(E.method(tr, "get_args"), (init, xs)),
                                                        E.eq(tr.fields["scan_length"], SInt(n, True))))
     # C01: assess on the trace's own choices and arguments
-    n_before = len(E.I.scans)
+    n_before = n_scans(E)
     score, aret = wf(E, sc, tr)
-    aloop = E.I.scans[n_before]
+    aloop = the_loop(E, n_before, "Scan.assess")
     aloop.prove_invariant(E, "C01.Scan.assess.lockstep_with_simulate",
                           lambda i, c: z3.And(zint(c[0]) == i, E.eq(c[1], loop.carry_at(i)[2])))
     E.prove("C01.Scan.simulate.wf.score", E.eq(score, E.method(tr, "get_score")))
@@ -96,7 +107,7 @@ def t_assess_generate(E):
     sc, kfn, init, xs, n = setup(E)
     k, c = key(E), chm(E, "constraint")
     score, ret = E.method(sc, "assess", c, (init, xs))
-    al = E.I.scans[0]
+    al = the_loop(E, 0, "Scan.assess")
     al.prove_invariant(E, "C12.Scan.assess.counter", lambda i, cy: zint(cy[0]) == i)
     sub = lambda i: T.chm_inner(c.t, E.I.to_u(SInt(i, False)))
     def rec(i):
@@ -108,9 +119,9 @@ def t_assess_generate(E):
     E.prove("C02.Scan.assess.iteration_i_assesses_submap_i_threading_the_carry", forall_i(E, n, rec))
     E.prove("C02.Scan.assess.score_is_sum", E.eq(score, E.I.make_sum(Stacked(n, lambda i: al.unfold(i)[1]))))
     E.prove("C12.Scan.assess.retval", E.And(E.eq(ret[0], al.carry_at(n)[1]), E.eq(al.carry_at(z3.IntVal(0))[1], init)))
-    nb = len(E.I.scans)
+    nb = n_scans(E)
     tr, w = E.method(sc, "generate", k, c, (init, xs))
-    gl = E.I.scans[nb]
+    gl = the_loop(E, nb, "Scan.generate")
     gl.prove_invariant(E, "C12.Scan.generate.counter", lambda i, cy: zint(cy[1]) == i)
     def grec(i):
         ck, cc, cv = gl.carry_at(i)
@@ -185,7 +196,7 @@ def _edit_loop(E, kind):
         req = E.new(REQ + ":Regenerate", selection=s)
         sub = lambda i: req                                                   # the SAME selection at every iteration
     new, w, rd, bwd = E.method(sc, "edit", k, old, req, ad)
-    loop = E.I.scans[0]
+    loop = the_loop(E, 0, f"Scan.edit_{kind}")
     E.cover(f"scan.edit_{kind}.reached")
     P = f"Scan.edit_{kind}"
     loop.prove_invariant(E, f"C12.{P}.counter_is_iteration_number", lambda i, cy: zint(cy[1]) == i)
@@ -344,9 +355,12 @@ def t_edit_index(E):
     E.prove("C05.Scan.edit_index.args_unchanged", E.eq(E.method(new, "get_args"), (init, xs)))
     # C01: the new trace is a trace of the loop: assess re-runs it in lockstep along the new carry chain
     new_carry = lambda i: z3.If(i == idx.t + 1, T.d_primal(p0(rd1)), carry(i))
-    nb = len(E.I.scans)
+    # C12: the score is the sum of the (new) kernel scores
+    E.prove("C12.Scan.edit_index.score_is_sum_of_new_kernel_scores", E.eq(
+        E.method(new, "get_score"), E.I.make_sum(Stacked(n, lambda i: SReal(T.tr_score(ni.at(i).t))))))
+    nb = n_scans(E)
     score, aret = wf(E, sc, new)
-    al = E.I.scans[nb]
+    al = the_loop(E, nb, "Scan.assess")
     al.prove_invariant(E, "C01.Scan.assess.lockstep_with_edit_index",
                        lambda i, c: z3.And(zint(c[0]) == i, E.I.to_u(c[1]) == new_carry(i)))
     E.prove("C01.Scan.edit_index.wf.score", E.eq(score, E.method(new, "get_score")))
@@ -359,9 +373,9 @@ def _edit_wf(E, r, kind):
     """C01: assess on the new trace's own choices and arguments re-runs the loop in lockstep"""
     z3 = E.z3
     loop, new, ret, n = r["loop"], r["new"], r["ret"], r["n"]
-    nb = len(E.I.scans)
+    nb = n_scans(E)
     score, aret = wf(E, r["sc"], new)
-    al = E.I.scans[nb]
+    al = the_loop(E, nb, "Scan.assess")
     T = E.I.T
     al.prove_invariant(E, f"C01.Scan.assess.lockstep_with_edit_{kind}",
                        lambda i, c: z3.And(zint(c[0]) == i, E.I.to_u(c[1]) == T.d_primal(E.I.to_u(loop.carry_at(i)[2]))))
